@@ -16,6 +16,7 @@ import (
 	"encoding/hex"
 	"fmt"
 	"math/big"
+	"regexp"
 	"strings"
 	"time"
 
@@ -37,7 +38,31 @@ import (
 func init() { register("atomic", domAtomic) }
 
 // capLogger captures the last error-level record (the precompiles log the swallowed error there).
-type capLogger struct{ last *string }
+// fn (optional) receives the innermost application function on the stack trace the error carries
+// (cosmossdk.io/errors attaches one where an error is first wrapped): the callee that refused, whatever its text.
+type capLogger struct {
+	last *string
+	fn   *string
+}
+
+var reErrFrame = regexp.MustCompile(`github\.com/ExocoreNetwork/exocore/[\w/.]+\.(?:\(\*?\w+\)\.)?(\w+)`)
+
+// errInnermostFn: first application frame of the "%+v" rendering of an error ("" when it carries no stack).
+func errInnermostFn(v interface{}) string {
+	e, ok := v.(error)
+	if !ok || e == nil {
+		return ""
+	}
+	txt := ""
+	func() {
+		defer func() { _ = recover() }()
+		txt = fmt.Sprintf("%+v", e)
+	}()
+	if m := reErrFrame.FindStringSubmatch(txt); m != nil {
+		return m[1]
+	}
+	return ""
+}
 
 func (l capLogger) Debug(string, ...interface{}) {}
 func (l capLogger) Info(string, ...interface{})  {}
@@ -46,6 +71,9 @@ func (l capLogger) Error(msg string, kv ...interface{}) {
 	for i := 0; i+1 < len(kv); i += 2 {
 		if k, ok := kv[i].(string); ok && (k == "err" || k == "error") {
 			s = msg + " :: " + fmt.Sprint(kv[i+1])
+			if l.fn != nil && *l.last == "" {
+				*l.fn = errInnermostFn(kv[i+1])
+			}
 		}
 	}
 	// keep the FIRST error of a call (the inner one); later records are wrappers
@@ -79,6 +107,12 @@ type atomH struct {
 	dels    [][3]int    // (staker index, asset kind, operator index) of accepted delegations
 	orng    *RNG        // dom_atomic_oracle.go: RNG of the oracle entry points (separate stream)
 	oSent   map[string]int32
+	// dom_atomic_txbatch.go: several gateway messages relayed in ONE Ethereum transaction (one tx hash), LayerZero nonces
+	// fresh / repeated / replayed
+	lastErrFn string   // innermost application function of the logged error's stack trace (capLogger.fn)
+	sameTx    bool     // the next evm call belongs to the Ethereum transaction of the previous one (its tx hash is reused)
+	brng      *RNG     // RNG of the batch steps (separate stream)
+	nonces    []uint64 // LayerZero nonces of accepted undelegations of this history (replay candidates)
 }
 
 // further directed histories (each on a freshly booted chain) and per-step extras, registered from
@@ -88,7 +122,7 @@ var (
 	atomExtraStep     []func(h *atomH)
 )
 
-func (h *atomH) ctxFix() { h.c.Ctx = h.c.Ctx.WithLogger(capLogger{last: &h.lastErr}) }
+func (h *atomH) ctxFix() { h.c.Ctx = h.c.Ctx.WithLogger(capLogger{last: &h.lastErr, fn: &h.lastErrFn}) }
 
 func (h *atomH) block(d time.Duration) {
 	r := h.c.EndAndBegin(d)
@@ -141,7 +175,20 @@ var atomClass = [][3]string{
 	{"delegation.undelegate", "error occurred when parse acc address from Bech32", "GetDelegationParamsFromInputs"},
 	{"delegation.delegate", "there is no stored key for the input chain index", "GetDelegationParamsFromInputs"},
 	{"delegation.undelegate", "there is no stored key for the input chain index", "GetDelegationParamsFromInputs"},
-	{"delegation.undelegate", "", "ValidateUndelegationAmount"},
+	// UndelegateFrom: what refuses before RemoveShare's first write (Set(operatorAsset)) …
+	{"delegation.undelegate", "ctx TxHash type error", "ctx.Value(TxHash)"},
+	{"delegation.undelegate", "the amount isn't positive", "ValidateUndelegationAmount"},
+	{"delegation.undelegate", "QuerySingleDelegationInfo", "ValidateUndelegationAmount"},
+	{"delegation.undelegate", "the divisor is zero", "ValidateUndelegationAmount"},
+	{"delegation.undelegate", "insufficient delegation shares", "ValidateUndelegationAmount"},
+	{"delegation.undelegate", "GetOperatorSpecifiedAssetInfo", "ValidateUndelegationAmount"},
+	{"delegation.undelegate", "UpdateOperatorAssetState", "UpdateAssetValue(operator.TotalAmount)"},
+	// … and after it (none of these is reachable on the unchanged code: Props/C09Values.lean, C09_undelegate_*)
+	{"delegation.undelegate", "UpdateStakerAssetState", "UpdateAssetValue(PendingUndelegationAmount)"},
+	{"delegation.undelegate", "UpdateDelegationState", "UpdateDelegationState"},
+	{"delegation.undelegate", "the operator address isn't a valid acc addr", "UpdateDelegationState"},
+	{"delegation.undelegate", "the block height to complete the unelegation is invalid", "SetUndelegationRecords"},
+	{"delegation.undelegate", "cannot increment undelegation hold count", "IncrementUndelegationHoldCount"},
 	{"delegation.associateOperatorWithStaker", "the operator has not been registered", "IsOperator"},
 	{"delegation.associateOperatorWithStaker", "operator not exist", "IsOperator"},
 	{"delegation.associateOperatorWithStaker", "already been associated", "associatedOperator!=\"\""},
@@ -184,6 +231,19 @@ var atomClass = [][3]string{
 	{"avs.createTask", "the contract input parameter type or value error", "GetTaskParamsFromInputs"},
 }
 
+// atomFnStep: refusing step of an entry point from the callee that produced the error (innermost application frame of
+// the error's stack trace), for failures whose text no row above knows. Independent of the wording of the error.
+var atomFnStep = map[string]map[string]string{
+	"delegation.undelegate": {
+		"ValidateUndelegationAmount": "ValidateUndelegationAmount", "GetSingleDelegationInfo": "ValidateUndelegationAmount",
+		"SharesFromTokens": "ValidateUndelegationAmount", "RemoveShareFromOperator": "share.GT(TotalShare)", "TokensFromShares": "TokensFromShares",
+		"UpdateOperatorAssetState": "UpdateAssetValue(operator.TotalAmount)",
+		"UpdateStakerAssetState":   "UpdateAssetValue(PendingUndelegationAmount)", "UpdateDelegationState": "UpdateDelegationState",
+		"DeleteStakerForOperator": "DeleteStakerForOperator", "SetUndelegationRecords": "SetUndelegationRecords",
+		"IncrementUndelegationHoldCount": "IncrementUndelegationHoldCount", "AfterUndelegationStarted": "IncrementUndelegationHoldCount",
+	},
+}
+
 func atomClassify(entry, errText string) string {
 	for _, r := range atomClass {
 		if errText != "" && strings.HasPrefix(entry, r[0]) && r[1] != "" && strings.Contains(errText, r[1]) {
@@ -196,6 +256,21 @@ func atomClassify(entry, errText string) string {
 		}
 	}
 	return ""
+}
+
+// failStep names the step of the entry point's program (Model/Atomic.lean) that refused: by the text of the logged
+// error, else — for a precompile's `false` — by the callee at the top of the error's stack trace.
+func (h *atomH) failStep(entry, class, errText string) string {
+	step := atomClassify(entry, errText)
+	if step == "" && class == "false" {
+		if st, ok := atomFnStep[entry][h.lastErrFn]; ok {
+			step = st
+			h.env.Note("classified-by-stack:" + entry + ":" + h.lastErrFn)
+		} else if entry == "delegation.undelegate" && strings.HasSuffix(errText, ":: "+delegationtypes.ErrNoKeyInTheStore.Error()) {
+			step = "DeleteStakerForOperator" // the bare sentinel: only DeleteStakerForOperator returns it unwrapped on this path
+		}
+	}
+	return step
 }
 
 // report handles one failing call: diff, monitor, model line.
@@ -216,7 +291,7 @@ func (h *atomH) report(entry, class, errText string, before Snapshot, desc strin
 		fmt.Printf("FAIL %s %s :: %.200s\n", entry, class, errText)
 	}
 	env.Eval("C09.fail-leaves-no-trace")
-	step := atomClassify(entry, errText)
+	step := h.failStep(entry, class, errText)
 	obs := "clean"
 	if len(stores) > 0 {
 		obs = "dirty"
@@ -266,10 +341,18 @@ func (h *atomH) evm(entry string, from common.Address, to common.Address, a abi.
 	}
 	m := a.Methods[method]
 	before := xbSnapshot(h.c, h.c.Ctx, true)
-	h.lastErr = ""
+	h.lastErr, h.lastErrFn = "", ""
+	txNote := ""
+	if h.sameTx && xbTxCounter > 0 {
+		// a further call of the Ethereum transaction the previous call belonged to: xbEvmCall derives the tx hash it
+		// puts into the context (delegation.CtxKeyTxHash) from xbTxCounter+1
+		xbTxCounter--
+		txNote = " [same Ethereum tx as the previous call]"
+	}
+	h.sameTx = false
 	r := xbEvmCall(h.c, from, to, data, &m)
 	class := r.Class()
-	desc := fmt.Sprintf("evm %s from=%s data=%s", entry, from.Hex(), hex.EncodeToString(data))
+	desc := fmt.Sprintf("evm %s from=%s data=%s tx=%x%s", entry, from.Hex(), hex.EncodeToString(data), xbTxCounter, txNote)
 	h.env.Outcome(entry + ":" + class)
 	if class == "ok" {
 		h.hist = append(h.hist, desc+" => ok")
@@ -906,6 +989,7 @@ func (h *atomH) boot(seed uint64) {
 	h.abis = xbLoadABIs(h.c)
 	h.stakers, h.others, h.dels, h.slashOK = nil, nil, nil, nil
 	h.orng, h.oSent = nil, nil
+	h.brng, h.nonces, h.sameTx = nil, nil, false
 	for i := 0; i < 3; i++ {
 		h.stakers = append(h.stakers, NewActor(seed, "staker", i))
 	}
